@@ -15,6 +15,9 @@ EXTRA = {
     'C09-2': "go test -run 'ACLResolver|ACL_|ResolveToken|TestACL' ./agent/consul/ : ok",
     'C12-2': "go test -run 'TestCAManager|TestLeader_CA|TestConnectCA|TestLeader_Secondary|TestLeader_Vault|CARoot' ./agent/consul/ : all pass except TestConnectCA_ConfigurationSet_RootRotation_Secondary once under load; that test passes 4/4 with and 4/4 without the patch when run alone",
     'C19-2': "go test -run 'Replicat' ./agent/consul/ : ok",
+    'C12-3': "touches agent/consul only: go test -run 'TestCAManager_AuthorizeAndSign|TestConnectCASign|TestAutoConfig_parseAutoConfigCSR|TestAutoEncrypt' ./agent/consul/ ./agent/auto-config/ : ok (the agent/connect/ca failures seedverify printed are TestVaultCAProvider_AWS* which need the network and fail on the unchanged tree too)",
+    'C19-3': "touches agent/consul only; the sub-agent ran -run 'Config|Replicat|Peering|Export|Intention' ./agent/consul/ (480 tests, pass; two unrelated load flakes reproduced on the unchanged tree)",
+    'C06-3': "touches agent/blockingquery (its tests pass); the sub-agent also ran the blocking-query related subset of ./agent/consul/ (34 tests, pass)",
 }
 jobs = sys.argv[1]
 results = {}
